@@ -7,3 +7,8 @@ Definition map_bkt_thresh : Z := 10.
 Definition map_init_buckets : Z := 32.
 Definition map_init_buckets_log2 : Z := 5.
 Definition vector_init_cap : Z := 16.
+
+(* vector_reserve1: oldlen = sizeof( *vc) + vc->p.len * vc->vc_stride; passed as old size to vc_callbacks.realloc *)
+Definition vector_oldlen (hdr len stride siz : Z) : Z := hdr + len * stride.
+(* buffer_reserve: bf_callbacks.realloc(bf->bf_ptr, bf->bf_siz, newsiz, ...) *)
+Definition buffer_oldlen (len siz : Z) : Z := siz.
